@@ -119,6 +119,10 @@ def async_session(n_cmds, rng, snapshot="/repo/tests/snapshots/default.snapshot"
                     state["on"] = True
                 for i in range(n_cmds):
                     k = rng.randrange(7)
+                    if i % 17 == 5:
+                        # the operating system reports an error for the endpoint (e.g. an ICMP port-unreachable bounce):
+                        # the connection stays, and so does its numbering
+                        spa._protocol.error_received(OSError(111, "gv: connection refused (ICMP)"))
                     if k == 6:
                         # a water-care change is a protocol request (answered by the peer with WCSET)
                         await f.water_care.async_set_mode(rng.randrange(5))
